@@ -57,6 +57,7 @@ IMPORTS = ('From Coq Require Import ZArith List Bool. Import ListNotations.\n'
            'From Sky Require Import Result M_Parallel.\nOpen Scope Z_scope.\n')
 SITE = 'multiproc.parallelize'
 SLOW = 0.07
+BULK = 1500      # log records of a bulk task (~1 MB pickled, pipe capacity 64 kB); not mirrored in the model
 
 
 # ----------------------------------------------------------------------------
@@ -280,11 +281,12 @@ def offsets(sizes):
     return out
 
 
-def mk_case(ncpu, ntasks, kind, slow=(), late=(), nlog=0, faults=(), seed=None, trials=False):
+def mk_case(ncpu, ntasks, kind, slow=(), late=(), nlog=0, faults=(), seed=None, trials=False, bulk=()):
     """slow: pids sleeping at their first task; late: worker pids sleeping between result and end marker;
     faults: dicts {pid, task (local index | None), kind: raise|exit|kill|after, code, channel: hook|func}"""
     case = {'ncpu': ncpu, 'ntasks': ntasks, 'kind': kind, 'slow': sorted(slow), 'late': sorted(late),
-            'nlog': nlog, 'faults': [dict(f) for f in faults], 'seed': seed, 'trials': bool(trials)}
+            'nlog': nlog, 'faults': [dict(f) for f in faults], 'seed': seed, 'trials': bool(trials),
+            'bulk': sorted(bulk)}
     specs, plan = {}, []
     if trials:       # Analysis.do_trials builds the argument list itself: delays only through the hook
         case['slow'] = sorted(p for p in slow if p > 0)
@@ -297,6 +299,9 @@ def mk_case(ncpu, ntasks, kind, slow=(), late=(), nlog=0, faults=(), seed=None, 
         for i in range(ntasks):
             if nlog:
                 specs.setdefault(str(i), {})['nlog'] = nlog
+        for p in bulk:     # a worker whose first task emits far more log records than its queue's pipe holds
+            if 0 < p < ncpu and sizes[p] > 0:
+                specs.setdefault(str(offs[p]), {})['nlog'] = BULK
         for p in slow:
             if p < ncpu and sizes[p] > 0:
                 specs.setdefault(str(offs[p]), {})['delay'] = SLOW
@@ -433,7 +438,7 @@ def canon_model(v):
 # ---- predicates (independent of the model)
 
 def predicates(ctx, case, obs, oc):
-    pub = {k: case[k] for k in ('ncpu', 'ntasks', 'kind', 'slow', 'late', 'nlog', 'faults', 'seed', 'trials', 'plan', 'specs')}
+    pub = {k: case[k] for k in ('ncpu', 'ntasks', 'kind', 'slow', 'late', 'nlog', 'faults', 'seed', 'trials', 'bulk', 'plan', 'specs')}
     if oc[0] == 'Broken':
         ctx.broken.append({'kind': 'harness', 'error': f'runner gave no observation: {obs}'})
         return
@@ -446,6 +451,8 @@ def predicates(ctx, case, obs, oc):
     if case['seed'] is not None:
         return   # judged by the rss predicate
     if k < 1:
+        if n == 0:
+            return   # the empty argument list returns [] before ncpu is looked at (fix ac3e25b)
         if oc[0] != 'Fail':
             ctx.violation(SITE, 'bad-ncpu-accepted', 'ncpu < 1 did not raise', case=pub, impl=oc)
         return
@@ -501,7 +508,9 @@ def gen_cases(ctx):
     cases.append(mk_case(3, 6, 'corpus-a', slow=[1], faults=[{'pid': 1, 'task': 0, 'kind': 'exit', 'code': 1, 'channel': 'hook'}]))
     cases.append(mk_case(3, 6, 'corpus-b', faults=[{'pid': 2, 'task': None, 'kind': 'after', 'code': 1, 'channel': 'hook'}]))
     cases.append(mk_case(3, 6, 'corpus-c', slow=[2], faults=[{'pid': 1, 'task': 1, 'kind': 'exit', 'code': 0, 'channel': 'func'}]))
-    cases.append(mk_case(3, 0, 'corpus-empty'))
+    cases.append(mk_case(3, 0, 'corpus-empty'))      # fixed ac3e25b: raised ValueError
+    cases.append(mk_case(1, 0, 'corpus-empty'))
+    cases.append(mk_case(8, 0, 'corpus-empty'))
     # A. fault-free grid
     for k in range(1, 9):
         for n in range(0, 21):
@@ -515,6 +524,8 @@ def gen_cases(ctx):
                 slow = [p for p in range(k) if (a >> p) & 1]
                 late = [p for p in range(1, k) if rng.random() < 0.15]
                 cases.append(mk_case(k, n, 'grid', slow=slow, late=late, nlog=rng.choice([0, 0, 1, 2])))
+    for (k, n) in ((2, 2), (3, 7), (4, 4)) if not th else [(k, n) for k in (2, 3, 4, 6) for n in (2, 5, 9)]:
+        cases.append(mk_case(k, n, 'grid-bulk', bulk=[rng.randrange(1, k)], late=[rng.randrange(1, k)]))
     # B. single faults, exhaustively for small sizes, in two timing contexts
     sizes_b = [(2, 1), (2, 3), (3, 2), (3, 4), (3, 5), (4, 6), (5, 7)] if not th else \
         [(k, n) for k in range(2, 6) for n in range(1, 9)]
@@ -532,9 +543,14 @@ def gen_cases(ctx):
                     if not th and (k, n) in ((4, 6), (5, 7)):
                         ctxs = [rng.choice(ctxs)]
                     for (nm, slow) in ctxs:
-                        if nm == 'victim-last' and fk == 'after' and cs[p] == 0:
-                            slow = []
                         cases.append(mk_case(k, n, 'fault:' + nm, slow=slow, nlog=rng.choice([0, 1]), faults=[f]))
+                    if fk == 'after':
+                        # the victim is still alive when the master takes its result record and starts to
+                        # drain its log records; it dies before the end marker
+                        cases.append(mk_case(k, n, 'fault:victim-lingers', late=[p], nlog=rng.choice([0, 1]),
+                                             faults=[f]))
+                        if cs[p] > 0 and (th or (k, n) in ((2, 3), (3, 5))):
+                            cases.append(mk_case(k, n, 'fault:victim-lingers-bulk', late=[p], faults=[f], bulk=[p]))
         for t in range(cs[0]):       # a task of the master's own chunk raises
             cases.append(mk_case(k, n, 'fault:master', slow=rng.sample(range(k), 1),
                                  faults=[{'pid': 0, 'task': t, 'kind': 'raise', 'channel': 'func'}]))
@@ -579,7 +595,7 @@ def judge(ctx, cases, obs, nvariants):
     for case, o in zip(cases, obs):
         oc = observe_class(case, o)
         classes.append(oc)
-        ctx.case({k: case[k] for k in ('ncpu', 'ntasks', 'slow', 'late', 'nlog', 'faults', 'seed')},
+        ctx.case({k: case[k] for k in ('ncpu', 'ntasks', 'slow', 'late', 'nlog', 'faults', 'seed', 'bulk')},
                  nontrivial=case['ntasks'] > 0)
         ctx.count('kind:' + case['kind'])
         ctx.count('outcome:' + (oc[1] if oc[0] == 'Fail' else oc[0]))
@@ -651,7 +667,7 @@ def judge(ctx, cases, obs, nvariants):
         if a != b and oi not in seen:
             seen[oi] = True
             ctx.disagree(SITE, {k: case[k] for k in ('ncpu', 'ntasks', 'kind', 'slow', 'late', 'nlog', 'faults',
-                                                     'seed', 'plan', 'specs')}, oc, m,
+                                                     'seed', 'bulk', 'plan', 'specs')}, oc, m,
                          'observed outcome class differs from the model on a schedule of the same plan: ' + e[:600])
 
 
@@ -774,7 +790,7 @@ def replay(ctx, rp):
     c = mk_case(case['ncpu'], case['ntasks'], case.get('kind', 'replay'), slow=case.get('slow', ()),
                 late=case.get('late', ()), nlog=case.get('nlog', 0),
                 faults=[{k: v for k, v in f.items() if k != 'triggers'} for f in case.get('faults', [])],
-                seed=case.get('seed'), trials=case.get('trials', False))
+                seed=case.get('seed'), trials=case.get('trials', False), bulk=case.get('bulk', ()))
     cases = [c, c] if c['seed'] is not None else [c]
     obs = run_impl(cases, ctx.budget(20, 60), nproc=1)
     ctx.sample({'case': c, 'observed': obs[0]})
